@@ -84,8 +84,8 @@ func init() {
 	register(&Property{
 		ID: "C06",
 		Explanation: "Decides structural necessary conditions of behaviour-preserving minimization: GUARD(entry): minimize consults Grammar.Inputs so that entry states (referenced by index from generated Parse*/lookahead functions) stay apart. GUARD(final): the initial partition consults Tables.FinalStates (reaching `end` stops the parse, which no action signature records). FIELDCOV(minimize): the rule-class key is built from LHS, RuleLen (as popped by the parser), action, node type and flags; every Tables field that holds or is indexed by state numbers is rewritten on the merge path; new Tables fields must be classified; the refinement signature contains own partition, edge symbol and target partition. " +
-			"MUSTPASS(compile-order): minimize runs after conflict resolution and before Optimize. KEYCOPY: the interning containers that partition states by signature store a copy of the signature, never the caller's (reusable) slice. AGREE(memo-key): generated code identifies a lookahead by its entry state (kept apart), never by its final state (merged with other final states). SIGNATURE(lalr-cell): each element of a lookahead state's initial signature is the Lalr cell itself or ruleClass[cell], never a constant standing for a class of cells. LOCKSTEP(rule-copy): the action id that keeps rules with different default-cast behaviour apart is stored into the lalr copy of the rule (the one minimize keys on) whenever it is stored into the grammar copy (the one applyRule is generated from). Not decided: that Moore refinement yields a behaviourally equivalent automaton on all inputs. ACCESSOR(len): IntSliceSet.Len(), the convergence measure of the refinement loop, returns the counter Insert advances per new element. GUARD(final) also requires the protected set to hold the elements of Tables.FinalStates. SIGNATURE(lalr-cell) also requires every (terminal, action) pair of a row to be appended.",
-		Rules: []string{"GUARD(entry)", "GUARD(final)", "FIELDCOV(minimize)", "MUSTPASS(compile-order)", "KEYCOPY", "LOCKSTEP(rule-copy)", "SIGNATURE(lalr-cell)", "AGREE(memo-key)", "GUARD(optimize-la)", "ACCESSOR(len)"},
+			"MUSTPASS(compile-order): minimize runs after conflict resolution and before Optimize. KEYCOPY: the interning containers that partition states by signature store a copy of the signature, never the caller's (reusable) slice. AGREE(memo-key): generated code identifies a lookahead by its entry state (kept apart), never by its final state (merged with other final states). SIGNATURE(lalr-cell): each element of a lookahead state's initial signature is the Lalr cell itself or ruleClass[cell], never a constant standing for a class of cells. LOCKSTEP(rule-copy): the action id that keeps rules with different default-cast behaviour apart is stored into the lalr copy of the rule (the one minimize keys on) whenever it is stored into the grammar copy (the one applyRule is generated from). Not decided: that Moore refinement yields a behaviourally equivalent automaton on all inputs. ACCESSOR(len): IntSliceSet.Len(), the convergence measure of the refinement loop, returns the counter Insert advances per new element. GUARD(final) also requires the protected set to hold the elements of Tables.FinalStates. SIGNATURE(lalr-cell) also requires every (terminal, action) pair of a row to be appended. KEYCOV(cast-action): the key under which generateTables shares default-cast action ids contains both types whose difference requires the cast, so reduce states that cast differently are never merged.",
+		Rules: []string{"GUARD(entry)", "GUARD(final)", "FIELDCOV(minimize)", "MUSTPASS(compile-order)", "KEYCOPY", "LOCKSTEP(rule-copy)", "SIGNATURE(lalr-cell)", "AGREE(memo-key)", "GUARD(optimize-la)", "ACCESSOR(len)", "KEYCOV(cast-action)"},
 		Run: func(c *Ctx) {
 			ruleENTRYGUARD(c)
 			ruleFINALGUARD(c)
@@ -97,6 +97,7 @@ func init() {
 			ruleRULECOPY(c)
 			ruleSIGCELL(c)
 			ruleMEMOKEY(c)
+			ruleCASTKEY(c)
 		},
 	})
 }
@@ -107,11 +108,12 @@ func init() {
 		Explanation: "The compile-time precedence decision is a finite table; it is extracted from the code by abstract evaluation and compared with the documented one. DTX(resolvePrec): for every combination of (rule has precedence, lookahead has precedence, order of the two groups, associativity) the result equals: missing -> conflict; higher wins; equal -> left reduces, right shifts, nonassoc is an error. " +
 			"GUARD(lastterminal): the fallback takes the last RHS symbol with 0 < sym < Terminals (markers and nonterminals excluded). DTX(ruleAction): shift x {reduce, error, shift, conflict} -> {rule, -3, -1, -1}; an existing conflict or nonassoc error keeps its action; an unresolved reduce/reduce keeps the earlier rule and reports both. " +
 			"MUSTPASS(nonassoc-rewrite): -3 becomes the error code -2 before a row is emitted. LOCKSTEP(precGroup): later declaration = larger group. DTX(assocmap): %left/%right/%nonassoc map to Left/Right/NonAssoc. CODEC(optimize): nonassoc errors survive defaultReduce (every pair of a lookahead row stores its cell; only sentinel cells take the default). ORDER(alternatives): compiler.or keeps the base nonterminal's rules before the rules of its extend clauses, so the \"earlier rule\" of a reduce/reduce default is the one written first. " +
-			"Not decided: that the chosen action is what the running parser does (C01), hasConflict bookkeeping across several rules on one terminal.",
-		Rules: []string{"ORDER(alternatives)", "DTX(resolvePrec)", "GUARD(lastterminal)", "DTX(ruleAction)", "MUSTPASS(nonassoc-rewrite)", "LOCKSTEP(precGroup)", "DTX(assocmap)", "CODEC(optimize)"},
+			"Not decided: that the chosen action is what the running parser does (C01), hasConflict bookkeeping across several rules on one terminal. DTX(hasConflict) as in C03: a terminal already decided by precedence still goes through precedence resolution for the next rule.",
+		Rules: []string{"ORDER(alternatives)", "DTX(resolvePrec)", "GUARD(lastterminal)", "DTX(ruleAction)", "MUSTPASS(nonassoc-rewrite)", "LOCKSTEP(precGroup)", "DTX(assocmap)", "CODEC(optimize)", "DTX(hasConflict)"},
 		Run: func(c *Ctx) {
 			ruleORORDER(c)
 			ruleRESOLVEPREC(c)
+			ruleHASCONFLICT(c)
 			ruleRULEACTION(c)
 			rulePRECPLUMBING(c)
 			ruleOPTCODEC(c)
@@ -121,14 +123,15 @@ func init() {
 		ID: "C03",
 		Explanation: "Decides the structural clauses of 'conflict reports are exact': GUARD(conflict-accounting): the shift/reduce counter grows by len(conflict.Next) exactly under !Resolved and CanShift, the reduce/reduce counter under !Resolved and !CanShift. DTX(reportConflicts): for all 16 combinations of (sr = %expect, rr = %expect-rr, includeResolved, verbose) the summary error at the grammar origin is raised iff a count differs; the counts are exported. " +
 			"GUARD(unionclone) + ALIAS/ESCAPE over lalr: lookahead sets kept in states never share storage with the scratch buffer that the next union overwrites. DTX(ruleAction): which resolution is recorded per conflict. DTX(lr0-shift): a state with a reduction that receives its first shift loses its 'reduce without lookahead' status on every path. MINMAX(update): the low-link updates of the SCC pass that orders the lookahead propagation (util/graph Tarjan) compare against the cell they update. " +
-			"Not decided: LR(0) closure, lookback/follow propagation, the LALR(1) sets themselves — algorithmic, out of reach for this technique.",
-		Rules: []string{"GUARD(conflict-accounting)", "DTX(reportConflicts)", "DTX(lr0-shift)", "GUARD(unionclone)", "ALIAS", "ESCAPE", "DTX(ruleAction)", "MINMAX(update)", "SENTINEL(allTokensMarker)"},
+			"Not decided: LR(0) closure, lookback/follow propagation, the LALR(1) sets themselves — algorithmic, out of reach for this technique. DTX(hasConflict): conflictBuilder.hasConflict is true exactly for an existing entry whose resolution is `conflict` (all 6 cells); an entry decided by precedence does not make the next rule on that terminal a conflict.",
+		Rules: []string{"GUARD(conflict-accounting)", "DTX(reportConflicts)", "DTX(lr0-shift)", "GUARD(unionclone)", "ALIAS", "ESCAPE", "DTX(ruleAction)", "MINMAX(update)", "SENTINEL(allTokensMarker)", "DTX(hasConflict)"},
 		Run: func(c *Ctx) {
 			ruleMINMAX(c, "util/graph", "lalr", "util/container", "util/sparse")
 			ruleSENTINELIDX(c)
 			c.MinCount("MINMAX(update)", "util/graph.", 2)
 			ruleCONFLICTCOUNT(c)
 			ruleREPORTCONFLICTS(c)
+			ruleHASCONFLICT(c)
 			ruleLR0SHIFT(c)
 			ruleUNIONCLONE(c)
 			pk := map[string]bool{"lalr": true, "util/sparse": true}
@@ -159,8 +162,8 @@ func init() {
 		ID: "C09",
 		Explanation: "Decides structural necessary conditions of longest-match-with-priority tables: DTX(accept-priority): in a DFA state the accepted rule is replaced only by a rule of strictly higher precedence, equal precedence with a different action is an error. FIELDCOV(checkpoint): backtracking checkpoints are shared only between transitions with the same target state and the same accepted action, and carry that action. " +
 			"CODEC(lexdfa): the writer's three cell classes (state, checkpoint k = -1-k, accept = -1-action shifted below the checkpoints) are produced under the right tests; Tables.Scan reads Backtrack[-1-cell] only for actionStart < cell < 0, computes actionStart-cell only for cell <= actionStart (also on the end-of-input transition), and prefers a recorded checkpoint over the invalid action. " +
-			"Not decided: subset construction, epsilon closure, symbol-class compression. PAIR(checkpoint): recording a backtracking checkpoint records both the accepted action and the offset (Tables.Scan and the generated lexers). GUARD(empty-accept): addPattern reports `accepts empty text` both for accepting instructions linked from a pattern's first instruction and for an accepting first instruction itself (patterns that compile to no instruction: (), a{0}). INPLACE(write-behind-read): the in-place link filter of reCompiler.compile never writes ahead of its read cursor. GUARD(full-match): callers that use Tables.Scan to classify a whole constant (compiler.resolveClasses) compare the matched size with len(text) before trusting the action. LOOPSHAPE(fold-orbit) as in C10 (case folding visits the whole orbit, also in bytes mode).",
-		Rules: []string{"DTX(accept-priority)", "FIELDCOV(checkpoint)", "CODEC(lexdfa)", "PAIR(checkpoint)", "GUARD(empty-accept)", "INPLACE(write-behind-read)", "GUARD(full-match)", "LOOPSHAPE(fold-orbit)"},
+			"Not decided: subset construction, epsilon closure, symbol-class compression. PAIR(checkpoint): recording a backtracking checkpoint records both the accepted action and the offset (Tables.Scan and the generated lexers). GUARD(empty-accept): addPattern reports `accepts empty text` both for accepting instructions linked from a pattern's first instruction and for an accepting first instruction itself (patterns that compile to no instruction: (), a{0}). INPLACE(write-behind-read): the in-place link filter of reCompiler.compile never writes ahead of its read cursor. GUARD(full-match): callers that use Tables.Scan to classify a whole constant (compiler.resolveClasses) compare the matched size with len(text) before trusting the action. LOOPSHAPE(fold-orbit) as in C10 (case folding visits the whole orbit, also in bytes mode). LOSTWRITE(range-copy): stores into fields of range copies in lex and compiler are observable (the token id of a backtracking checkpoint is written to Backtrack[i], not to a copy).",
+		Rules: []string{"DTX(accept-priority)", "FIELDCOV(checkpoint)", "CODEC(lexdfa)", "PAIR(checkpoint)", "GUARD(empty-accept)", "INPLACE(write-behind-read)", "GUARD(full-match)", "LOOPSHAPE(fold-orbit)", "LOSTWRITE(range-copy)"},
 		Run: func(c *Ctx) {
 			ruleACCEPTPRIO(c)
 			ruleCHECKPOINTKEY(c)
@@ -170,6 +173,7 @@ func init() {
 			ruleINPLACE(c, "lex")
 			ruleFULLMATCH(c, "compiler", "gen", "grammar")
 			ruleFOLDORBIT(c)
+			ruleLOSTWRITE(c, "lex", "compiler")
 		},
 	})
 	register(&Property{
@@ -372,13 +376,15 @@ func init() {
 		ID: "C07",
 		Explanation: "Decides structural necessary conditions of 'LALR(k) resolution never changes the language': CODEC(deep-pointer): lookahead pointers are encoded as -3-offset by every writer (trie emitter, populateTables, the Lalr patch) and decoded as -action-3 by every reader (Optimize, minimize's partitioning, each generated lalr()), and generated parse loops treat action < -2 as a pointer. MUSTPASS(trie-id): a minimized trie node receives its id before it is published in the shared cache. " +
 			"DTX(resolved-flag): a conflict is marked resolved only if no lookahead terminal failed (the flag only moves from true to false inside the terminal loop); UsedLADepth is raised with every patched pointer. GUARD(optimize-la): tables with pointers are not handed to Optimize. ORDER: the trie's map iterations are sorted (C18). GUARD(terminal-follow): both phases of buildLA (in-rule and cross-rule) contribute to the follow sets of terminal transitions when follow sets hold transitions (k>1). LOOPSHAPE(collect-all): the loops that gather a rule's transitions on the conflict terminal run to exhaustion. WHOCALLS(Lexer.Next): the deep-lookahead loop (like every parser-side fetch) reads tokens through the filter that drops injected comment/invalid tokens. " +
-			"Not decided: soundness of the trie (which rule a lookahead string selects). MUSTPASS(compile-order): lookahead resolution runs after the tables are populated and before conflicts are reported. MUSTPASS(trie-id) also requires the id counter to be a field of the builder that owns the cross-conflict cache; GUARD(terminal-follow) requires the terminal case of the cross-rule phase to sit in the same backward walk as the nonterminal case.",
-		Rules: []string{"CODEC(deep-pointer)", "MUSTPASS(trie-id)", "DTX(resolved-flag)", "GUARD(optimize-la)", "GUARD(terminal-follow)", "WHOCALLS(Lexer.Next)", "LOOPSHAPE(collect-all)", "MUSTPASS(compile-order)"},
+			"Not decided: soundness of the trie (which rule a lookahead string selects). MUSTPASS(compile-order): lookahead resolution runs after the tables are populated and before conflicts are reported. MUSTPASS(trie-id) also requires the id counter to be a field of the builder that owns the cross-conflict cache; GUARD(terminal-follow) requires the terminal case of the cross-rule phase to sit in the same backward walk as the nonterminal case. LOSTWRITE(range-copy): a store into a field of a `for _, e := range` copy of a struct element is read later in the iteration or written back (the minimised child of a lookahead-trie node reaches n.edges[i].child). SIGNATURE(lalr-cell) as in C06: when the DFA is minimised, references to deep-lookahead automata stay part of a state's signature.",
+		Rules: []string{"CODEC(deep-pointer)", "MUSTPASS(trie-id)", "DTX(resolved-flag)", "GUARD(optimize-la)", "GUARD(terminal-follow)", "WHOCALLS(Lexer.Next)", "LOOPSHAPE(collect-all)", "MUSTPASS(compile-order)", "LOSTWRITE(range-copy)", "SIGNATURE(lalr-cell)"},
 		Run: func(c *Ctx) {
 			ruleCOLLECTALL(c)
 			ruleWHOCALLS(c)
 			ruleTERMFOLLOW(c)
 			ruleLALRK(c)
+			ruleLOSTWRITE(c, "lalr")
+			ruleSIGCELL(c)
 			ruleCOMPILEORDER(c)
 		},
 	})
@@ -448,9 +454,9 @@ func init() {
 		ID: "C30",
 		Explanation: "Decides structural necessary conditions of 'the Bison export describes the grammar the tables were built from' on the template tree of bison.go.tmpl and its Go helpers: CONSTAGREE(bison-kind): integer literals compared with .Kind equal syntax.Lookahead, and a bare %empty is printed only under that test (every other rule goes through ExprString, which keeps %prec). " +
 			"LOCKSTEP(bison-export): rules come from .Parser.RulesByNonterm and precedences from .Parser.Prec, the very slice assigned to lalr.Grammar.Precedence; left-hand sides are printed as the nonterminal's own name and references by the symbol's own text (no name rewriting that could merge symbols). " +
-			"Not decided: ExprString vs rule.RHS for mid-rule actions (a suspected mismatch, un-triaged). LOCKSTEP(bison-prec): the rule's explicit precedence agrees in its three copies: generateTables stores lalr.Rule.Precedence under expr.Kind == Prec and nothing else, and every Prec return of ExprString prints the %prec clause. FIELDCOV(reference-model): every Reference literal of package compiler sets Model, so the export prints names, not symbol numbers. AGREE(rule-value-kind): the kinds of expression that reach Rule.Value (the export prints ExprString(rule.Value)) all have a case in ExprString, whose default branch exits the process; the mid-rule-action path violates this today (known finding F30). AGREE(bison-namespace): the export prints terminals by ID and nonterminals by name, so with the option on resolver.addNonterms looks every nonterminal name up among the registered token IDs and reports a hit (otherwise one word names two symbols).",
-		Rules: []string{"CONSTAGREE(bison-kind)", "LOCKSTEP(bison-export)", "LOCKSTEP(bison-prec)", "FIELDCOV(reference-model)", "AGREE(rule-value-kind)", "AGREE(bison-namespace)"},
-		Run:   func(c *Ctx) { ruleBISON(c); ruleBISONPREC(c); ruleREFMODEL(c); ruleVALUEKIND(c); ruleBISONNS(c) },
+			"Not decided: ExprString vs rule.RHS for mid-rule actions (a suspected mismatch, un-triaged). LOCKSTEP(bison-prec): the rule's explicit precedence agrees in its three copies: generateTables stores lalr.Rule.Precedence under expr.Kind == Prec and nothing else, and every Prec return of ExprString prints the %prec clause. FIELDCOV(reference-model): every Reference literal of package compiler sets Model, so the export prints names, not symbol numbers. AGREE(rule-value-kind): the kinds of expression that reach Rule.Value (the export prints ExprString(rule.Value)) all have a case in ExprString, whose default branch exits the process; the mid-rule-action path violates this today (known finding F30). AGREE(bison-namespace): the export prints terminals by ID and nonterminals by name, so with the option on resolver.addNonterms looks every nonterminal name up among the registered token IDs and reports a hit (otherwise one word names two symbols). MUSTPASS(all-rules-listed): in Parser.RulesByNonterm every iteration over Parser.Rules appends its rule to a group (nothing is filtered between the tables' rule list and the export).",
+		Rules: []string{"CONSTAGREE(bison-kind)", "LOCKSTEP(bison-export)", "LOCKSTEP(bison-prec)", "FIELDCOV(reference-model)", "AGREE(rule-value-kind)", "AGREE(bison-namespace)", "MUSTPASS(all-rules-listed)"},
+		Run:   func(c *Ctx) { ruleBISON(c); ruleBISONPREC(c); ruleREFMODEL(c); ruleVALUEKIND(c); ruleBISONNS(c); ruleALLRULES(c) },
 	})
 }
 
